@@ -31,14 +31,14 @@ where
     let r = guarded(|| B::from_array(&arr));
     let constant = data.iter().all(|x| *x == data[0]);
     match r {
-        Err(m) => rep.fail(cfg, &case, "strategy construction panicked", json!({"panic": m})),
+        Err(m) => rep.fail_p(cfg, &case, "C12,C17", "strategy construction panicked", json!({"panic": m})),
         Ok(Err(e)) => {
             let is_empty_err = matches!(e, ndarray_stats::histogram::errors::BinsBuildError::EmptyInput);
-            if data.is_empty() != is_empty_err { rep.fail(cfg, &case, "EmptyInput must be returned exactly for empty data", json!({"error": format!("{:?}", e)})); }
+            if data.is_empty() != is_empty_err { rep.fail_p(cfg, &case, "C12,C17", "EmptyInput must be returned exactly for empty data", json!({"error": format!("{:?}", e)})); }
             // other rejections (constant data, zero width / zero IQR) are the Strategy error: accepted
         }
         Ok(Ok(b)) => {
-            if data.is_empty() || constant { rep.fail(cfg, &case, "empty or constant data must be rejected", json!({})); return; }
+            if data.is_empty() || constant { rep.fail_p(cfg, &case, "C12,C17", "empty or constant data must be rejected", json!({})); return; }
             let min = data.iter().min().unwrap().clone();
             let max = data.iter().max().unwrap().clone();
             let bins = b.build();
@@ -66,7 +66,7 @@ where
                 let total: usize = h.counts().iter().sum();
                 if total != data.len() { problems.push(format!("histogram counts {} of {} observations", total, data.len())); }
             } else { problems.push("GridBuilder rejected data the strategy accepted".into()); }
-            if !problems.is_empty() { rep.fail(cfg, &case, &problems[0].clone(), json!({"problems": problems, "edges": format!("{:?}", e), "width": format!("{:?}", w)})); }
+            if !problems.is_empty() { rep.fail_p(cfg, &case, "C12", &problems[0].clone(), json!({"problems": problems, "edges": format!("{:?}", e), "width": format!("{:?}", w)})); }
         }
     }
     rep.eval(&case, data.len() >= 2 && !constant);
@@ -79,12 +79,23 @@ where T: Num + num_traits::FromPrimitive + num_traits::NumOps + num_traits::Zero
     check_one::<T, Sturges<T>>(cfg, rep, "Sturges", dname, data, |b| b.bin_width());
     check_one::<T, FreedmanDiaconis<T>>(cfg, rep, "FreedmanDiaconis", dname, data, |b| b.bin_width());
     check_one::<T, Auto<T>>(cfg, rep, "Auto", dname, data, |b| b.bin_width());
+    // Auto is the better of Sturges and FreedmanDiaconis: it fails only when both of them fail (documented fallback)
+    let case = format!("strategy=Auto;fallback;data={}", dname);
+    if rep.want(cfg, &case) {
+        let arr = Array1::from(data.to_vec());
+        let r = guarded(|| (Auto::<T>::from_array(&arr).is_ok(), FreedmanDiaconis::<T>::from_array(&arr).is_ok(), Sturges::<T>::from_array(&arr).is_ok()));
+        match r {
+            Err(m) => rep.fail(cfg, &case, "strategy construction panicked", json!({"panic": m})),
+            Ok((auto, fd, st)) => if auto != (fd || st) { rep.fail_p(cfg, &case, "C12,C17", "Auto must succeed exactly when FreedmanDiaconis or Sturges does", json!({"auto_ok": auto, "freedman_diaconis_ok": fd, "sturges_ok": st})); }
+        }
+        rep.eval(&case, data.len() >= 2);
+    }
 }
 
 pub fn strategies(cfg: &mut Cfg, rep: &mut Report) {
     let maxn = if cfg.thorough { 6 } else { 5 };
     let maxlin = if cfg.thorough { 400 } else { 120 };
-    rep.bound = format!("integer data: every multiset of length 0..={} over 0..4 scaled by 1/7/1000 and shifted by 0/-100/10^9; N64 data: linspace(0,1,n), 0.1*i, 1e6+0.1*i, i/3 for n in 2..={}; five strategies; 1-D GridBuilder + histogram", maxn, maxlin);
+    rep.bound = format!("integer data: every multiset of length 0..={} over 0..4 scaled by 1/7/1000 and shifted by 0/-100/10^9; N64 data: linspace(0,1,n), 0.1*i, 1e6+0.1*i, i/3 for n in 2..={}, and 8 (negative non-dyadic minimum, power-of-two maximum) ranges with 49 / 121 points; five strategies; 1-D GridBuilder + histogram", maxn, maxlin);
     for n in 0..=maxn {
         for_all_arrays(n, 4, |a| {
             if a.windows(2).any(|w| w[0] > w[1]) { return true; } // multisets: one ordering each, plus its reverse below
@@ -105,5 +116,15 @@ pub fn strategies(cfg: &mut Cfg, rep: &mut Report) {
         let thirds: Vec<N64> = (0..n).map(|i| n64(i as f64 / 3.0)).collect();
         all_strategies::<N64>(cfg, rep, &format!("thirds({})", n), &thirds);
         if rep.stop { break; }
+    }
+    // a negative, non-dyadic minimum under a maximum that is a power of two (the range lies in a higher binade than the maximum):
+    // anything recomputed from the range, e.g. min + (max - min), is then off by an ulp; the maximum must still get a bin
+    for (lo, hi) in [(-6.7, 8.0), (-0.92, 1.0), (-1.89, 2.0), (-3.02, 4.0), (-2.1, 4.0), (-0.67, 1.0), (-4.2, 8.0), (-0.46, 0.5)] {
+        for n in [49usize, 121] {
+            if n > maxlin.max(121) { continue; }
+            let d: Vec<N64> = (0..n).map(|i| if i + 1 == n { n64(hi) } else { n64(lo + (hi - lo) * (i as f64) / (n as f64)) }).collect();
+            all_strategies::<N64>(cfg, rep, &format!("binade[{},{}]({})", lo, hi, n), &d);
+            if rep.stop { return; }
+        }
     }
 }
